@@ -42,6 +42,7 @@ PROPS["C03"] = dict(
     level="proof",
     verus=["c02_dispatch", "c03_parse_mask", "c03_apply_options", "c03_option_text", "c03_check_options", "c05_optimizer", "c06_matches", "c04_precedence", "c12_request", "c12_classify"],
     labels=["C03.", "C05.select.", "C04.check.unsupported", "C12.new.third_party", "C12.new.classify", "C12.preparsed.", "C12.classify."] + MASK,
+    witness=["c12_requests.rs"],
     kani=[KaniSet("src/filters/network_matchers.rs", "c03_options.rs", [
         Harness("c03_options_nodomain", "C03.options.nodomain", "C", "full domain: 2^32 masks x 17 request types x scheme x party; loop-free"),
         Harness("c03_type_bit", "C03.type_bit", "C", "all 17 request types"),
